@@ -305,6 +305,9 @@ func genC18(e *emitter, tier string, seed int64) {
 			emitV2(e, src, 3000, "operators")
 		}
 	}
+	for _, src := range membershipProgs() {
+		emitV2(e, src, 3000, "membership-types")
+	}
 	// index paths: present and missing keys, at the last and at an inner position, on maps inside lists and
 	// lists inside maps, wrongly typed and out-of-range subscripts
 	for _, path := range []string{`m["z"]`, `m["z"]["b"]`, `m["a"]["z"]`, `m["a"]["z"]["q"]`, `m["a"]["b"]`, `m["a"]["b"][0]`, `m["l"][0]`, `m["l"][5]`, `m["l"][0]["q"]`, `m["l"][0]["x"]`, `m["l"][0]["x"][0]`,
